@@ -1,13 +1,14 @@
 ------------------------------ MODULE Trace_API ------------------------------
-(* C06, text entry points: every recorded call of the scanner, the parser, eval_text and the sliced   *)
-(* evaluator on a generated text ended with a value or an error; a panic, an error that cannot be     *)
+(* C06, text entry points: every recorded call of the scanner, the parser, eval_text, the sliced       *)
+(* evaluator and the highlighter (both methods, every byte position of the text and two beyond it)    *)
+(* on a generated text ended with a value or an error; a panic, an error that cannot be     *)
 (* rendered, or a missing outcome is rejected.                                                        *)
 EXTENDS Naturals, Sequences, Json, IOUtils, TLC
 Rec == ndJsonDeserialize(IOEnv.TRACE)
 VARIABLES i, ph
 vars == <<i, ph>>
 AllowedOutcome == {"ok", "err"}
-Points == <<"scan", "parse", "eval", "sliced">>
+Points == <<"scan", "parse", "eval", "sliced", "highlight">>
 Report(p, got) == PrintT(<<"MISMATCH", ToJson([id |-> Rec[i].id, point |-> p, shown |-> Rec[i].shown, text |-> Rec[i].text, got |-> got])>>)
 Init == i \in 1..Len(Rec) /\ ph = "check"
 Validate ==
